@@ -1548,12 +1548,12 @@ def shrink(case):
 
 
 def _m_order_derived(case, result):
-    """ORDER BY over a derived numeric datatype (unsignedInt, short, int …) next to non-numeric literals:
+    """ORDER BY over a derived numeric datatype (unsignedInt, short, int, byte …) next to non-numeric literals (strings, booleans, dates):
     Literal.__gt__ orders cross-datatype pairs by datatype URI, which is not transitive with value order"""
     if not any(v.startswith("order") for v in result["viol"]):
         return False
     derived = any(c is not None and c[0] == "I" and len(c) > 2 for r in case["rows"] for c in r)
-    other = any(c is not None and c[0] in "SB" for r in case["rows"] for c in r)
+    other = any(c is not None and c[0] in "SBTY" for r in case["rows"] for c in r)  # (T, Y: the xsd:byte / xsd:date shape of K1)
     return derived and other
 
 
